@@ -8,7 +8,7 @@
 //   /pf      rParamF  float -2.5..10.25       default 0.5
 //   /pg      rParamF  float max 8 only        default 1
 //   /pt      rToggle                          default false
-//   /po      rOption  {zero, one, two}        default one
+//   /po      rOption  {zero, one, two, one2}  default one
 //   /ps      rString  length 8                default "abc"
 //   /preset_b rParamI 0..2                    default 0      (NO relation to /preset or /dep: a sibling whose name merely extends "preset", declared before it)
 //   /preset  rParamI  0..2                    default 0      (changing it re-initialises /dep)
@@ -92,7 +92,7 @@ inline const rtosc::Ports App::ports = {
     rParamF(pf, rLinear(-2.5, 10.25), rDefault(0.5), "float parameter"),
     rParamF(pg, rMap(max, 8), rDefault(1.0), "float parameter with an upper bound only"),
     rToggle(pt, rDefault(false), "toggle"),
-    rOption(po, rOptions(zero, one, two), rDefault(one), "option"),
+    rOption(po, rOptions(zero, one, two, one2), rDefault(one), "option (the last symbol extends the name of an earlier one)"),
     rString(ps, 8, rDefault("abc"), "string"),
     rParamI(preset_b, rLinear(0, 2), rDefault(0), "unrelated parameter whose name extends 'preset'"),
 #undef rChangeCb
